@@ -222,6 +222,68 @@ def eff_index(path, eff):
     return None
 
 
+def _variant_names(lst):
+    """names of a list literal of field-less enum variants, else None"""
+    if lst[0] != "list":
+        return None
+    out = set()
+    for x in lst[1]:
+        if not (x[0] == "variant" and not x[3]):
+            return None
+        out.add(x[2])
+    return out
+
+
+def possible_variants(ctx, p, term, adt, before=None):
+    """the set of variants of the field-less enum `adt` that `term` can still be after the decisions of path p, whichever
+    way they were spelled: [A, B].contains(&t), matches!(t, A | B) / match t {..} (discriminant decisions), t == A, t != A,
+    [A, B].iter().any(|v| *v == t), [A, B].iter().all(|v| *v != t)"""
+    names = ctx.facts.variants(adt)
+    if names is None:
+        return None
+    poss = set(names)
+    for c in p.conds:
+        if before is not None and c[3] > before:
+            continue
+        t, o = c[0], c[1]
+        if t == term and isinstance(o, str):
+            poss &= {o}
+        elif t[0] == "cmp" and t[1] == "eq" and isinstance(o, bool) and term in (t[2], t[3]):
+            other = t[3] if t[2] == term else t[2]
+            if other[0] == "variant" and not other[3]:
+                poss = (poss & {other[2]}) if o else (poss - {other[2]})
+        elif t[0] == "call" and t[1].split("::")[-1] == "contains" and len(t[2]) == 2 and t[2][1] == term and isinstance(o, bool):
+            vs = _variant_names(t[2][0])
+            if vs is not None:
+                poss = (poss & vs) if o else (poss - vs)
+        elif t[0] == "call" and t[1].split("::")[-1] in ("any", "all") and len(t[2]) == 2 and isinstance(o, bool) and t[2][1][0] == "closure":
+            vs = _variant_names(t[2][0])
+            clos = t[2][1]
+            if vs is None or term not in clos[2]:
+                continue
+            b = ctx.engine.by_dp.get(clos[1])
+            if b is None:
+                continue
+            up = ("param", "UPVAR")
+            ups = tuple(up if u == term else u for u in clos[2])
+            cps = ctx.engine.summarise(b, args=[("closure", clos[1], ups), ("param", "ELEM")])
+            if len(cps) != 1:
+                continue
+            r = cps[0].ret
+            neg = False
+            while r[0] == "not":
+                r, neg = r[1], not neg
+            if not (r[0] == "cmp" and r[1] == "eq" and set(r[2:4]) == {up, ("param", "ELEM")}):
+                continue
+            op = t[1].split("::")[-1]
+            # any(v == t): T -> in, F -> out;  all(v != t): T -> out, F -> in;  any(v != t) / all(v == t): no set information
+            if op == "any" and not neg:
+                poss = (poss & vs) if o else (poss - vs)
+            elif op == "all" and neg:
+                poss = (poss - vs) if o else (poss & vs)
+    return poss
+
+
 def decided_ints(conds, term, before=None):
     """integer values the path decided `term` to be equal to, whichever way the test was spelled:
     `match term { 7 => .. }` (switch decision) or `term == 7` / `7 == term` evaluated true"""
